@@ -7,7 +7,7 @@ use std::panic::{catch_unwind, AssertUnwindSafe};
 pub const OPS: &[&str] = &[
     "get_resolution", "deserialize", "serialize", "roundtrip", "cell_to_parent", "cell_to_children",
     "get_res0_cells", "is_first_child", "get_stride", "get_num_cells", "get_num_children", "uncompact",
-    "compact_cover", "compact_max", "compact_total", "uncompact_total", "order", "order_children", "hex", "hex_parse",
+    "compact_cover", "compact_max", "compact_total", "uncompact_total", "order", "order_children", "reference", "hex", "hex_parse",
     "lonlat_to_cell", "cell_to_lonlat", "cell_to_boundary", "cell_area",
 ];
 
@@ -394,6 +394,53 @@ pub fn run_op(op: &str, a: &[String]) -> Result<(), String> {
             let my = ky.iter().min().copied().unwrap_or(u64::MAX);
             if mx >= my {
                 return Err(format!("{} < {} but a listed descendant {} of the first is not below a listed descendant {} of the second", hx(x), hx(y), hx(mx), hx(my)));
+            }
+            Ok(())
+        }
+        "reference" => {
+            // one line of the frozen reference dump (contracts/reference/ref_dump_v0.6.2.txt, spaces as '~'):
+            // the real code must reproduce it
+            use a5::core::hilbert::{s_to_anchor, Orientation};
+            use a5::core::origin::{get_origins, quintant_to_segment, segment_to_quintant};
+            let line = a[0].replace('~', " ");
+            let b = |x: f64| format!("0x{:016x}", x.to_bits());
+            let got = guard(|| {
+                let t: Vec<&str> = line.split(' ').collect();
+                match t[0] {
+                    "origin" => {
+                        let o = &get_origins()[t[1].parse::<usize>().unwrap()];
+                        format!(
+                            "origin {} fq={} orient={:?} quat=[{},{},{},{}] inv=[{},{},{},{}] theta={} phi={} angle={}",
+                            o.id, o.first_quintant, o.orientation,
+                            b(o.quat[0]), b(o.quat[1]), b(o.quat[2]), b(o.quat[3]),
+                            b(o.inverse_quat[0]), b(o.inverse_quat[1]), b(o.inverse_quat[2]), b(o.inverse_quat[3]),
+                            b(o.axis.theta().get()), b(o.axis.phi().get()), b(o.angle.get())
+                        )
+                    }
+                    "relabel" => {
+                        let o = &get_origins()[t[1].parse::<usize>().unwrap()];
+                        let q: usize = t[2].parse().unwrap();
+                        let (seg, or1) = quintant_to_segment(q, o);
+                        let (q2, or2) = segment_to_quintant(seg, o);
+                        format!("relabel {} {} -> seg={} {:?} ; back q={} {:?}", o.id, q, seg, or1, q2, or2)
+                    }
+                    "anchor" => {
+                        let ors = [Orientation::UV, Orientation::VU, Orientation::UW, Orientation::WU, Orientation::VW, Orientation::WV];
+                        let n: usize = t[1].parse().unwrap();
+                        let oi: usize = t[2].parse().unwrap();
+                        let sv: u64 = t[3].parse().unwrap();
+                        let an = s_to_anchor(sv, n, ors[oi]);
+                        format!("anchor {} {} {} k={} f=[{},{}] x={} y={}", n, oi, sv, an.k, an.flips[0], an.flips[1], b(an.offset.x()), b(an.offset.y()))
+                    }
+                    "area" => {
+                        let r: i32 = t[1].parse().unwrap();
+                        format!("area {} {} cells={}", r, b(a5::cell_area(r)), a5::get_num_cells(r))
+                    }
+                    _ => line.clone(),
+                }
+            })?;
+            if got != line {
+                return Err(format!("reference release: `{}`  this tree: `{}`", line, got));
             }
             Ok(())
         }
@@ -916,6 +963,16 @@ pub fn generate(op: &str, rng: &mut Rng, budget: u64, f: &mut dyn FnMut(Vec<Stri
                 shuffle(&mut l, rng);
                 if !f(vec![flist(&l)]) {
                     return;
+                }
+            }
+        }
+        "reference" => {
+            let path = std::env::var("A5_REF_DUMP").unwrap_or("/verif/contracts/reference/ref_dump_v0.6.2.txt".to_string());
+            if let Ok(txt) = std::fs::read_to_string(path) {
+                for l in txt.lines() {
+                    if !l.is_empty() && !f(vec![l.replace(' ', "~")]) {
+                        return;
+                    }
                 }
             }
         }
